@@ -287,6 +287,22 @@ def step (d : DState) (line : String) : IO DState := do
     printEvs evs
     out s!"wst {showPc sys'.worker.pc} q={sys'.worker.queue.length}"
     return noteEvs { d with sys := sys' } evs
+  | ["wfsall"] =>
+    -- run the worker until it is idle or dead, failing every fdatasync on the way
+    if d.sys.store.isNone then out "wst none"; return d
+    let mut d := d
+    let mut n := 0
+    while !(d.sys.worker.quiet || d.sys.worker.pc == .dead) && n < 100000 do
+      let o : Outcome := match d.sys.worker.pc with
+        | .syncOld _ _ => .eio
+        | .syncNew _ _ => .eio
+        | _ => .ok
+      let (sys', evs) := d.sys.workerStep o
+      printEvs evs
+      d := noteEvs { d with sys := sys' } evs
+      n := n + 1
+    out s!"wst {showPc d.sys.worker.pc} q={d.sys.worker.queue.length}"
+    return d
   | ["wack", cbTok] =>
     -- release the worker (all outcomes ok) until callback `cb` has been delivered
     match cbTok.toNat? with
